@@ -36,7 +36,7 @@ pub static SPEC: Spec = Spec {
         "the reference was written from the scheme description (DESIGN.md appendix A), not by calling hypercore / compact-encoding / flat-tree",
     ],
     exhaustive_note: "every log length 1..130 (all root-set shapes up to 7 roots) is compared node by node",
-    hang_secs: 240,
+    hang_secs: 480,
 };
 
 fn n3(n: &Node) -> (u64, u64, [u8; 32]) {
